@@ -41,7 +41,7 @@ PROPS['C20'] = {
 NOT_APPLICABLE = {}
 
 PROPS['C02'] = {
-    'modules': ['c02', ('c18', ['R18.3']), ('c05', ['A5.8']), ('c03', ['R3.6'])],
+    'modules': ['c02', ('c18', ['R18.3']), ('c05', ['A5.8']), ('c03', ['R3.6', 'R3.10']), ('c11', ['R11.4'])],
     'level': 'other',
     'quick_configs': ['default'],
     'thorough_configs': ALL,
@@ -76,7 +76,7 @@ PROPS['C02'] = {
 }
 
 PROPS['C06'] = {
-    'modules': ['c06', 'fattype', 'siblings'],
+    'modules': ['c06', 'fattype', 'siblings', ('c11', ['R11.4'])],
     'level': 'other',
     'quick_configs': ['default'],
     'thorough_configs': ALL,
@@ -237,7 +237,7 @@ PROPS['C12'] = {
 }
 
 PROPS['C05'] = {
-    'modules': ['c05', ('c03', ['R3.8', 'R3.7b'])],
+    'modules': ['c05', ('c03', ['R3.8', 'R3.7b']), ('c11', ['R11.4'])],
     'level': 'other',
     'quick_configs': ['default'],
     'thorough_configs': ALL,
@@ -266,7 +266,7 @@ PROPS['C05'] = {
 }
 
 PROPS['C08'] = {
-    'modules': ['c08', 'fattype', ('c10', ['R10.2']), ('c17', ['T3b', 'T3'])],
+    'modules': ['c08', 'fattype', ('c10', ['R10.2']), ('c17', ['T3b', 'T3']), ('c11', ['R11.4'])],
     'level': 'other',
     'quick_configs': ['default'],
     'thorough_configs': ALL,
@@ -441,7 +441,7 @@ PROPS['C16'] = {
 }
 
 PROPS['C10'] = {
-    'modules': ['c10'],
+    'modules': ['c10', ('c11', ['R11.4'])],
     'level': 'other',
     'quick_configs': ['default'],
     'thorough_configs': ALL,
@@ -469,7 +469,7 @@ PROPS['C10'] = {
 }
 
 PROPS['C03'] = {
-    'modules': ['c03', ('c05', ['A5.8']), ('c10', ['R10.4']), ('c15', ['N7']), ('c04', ['K5'])],
+    'modules': ['c03', ('c05', ['A5.8']), ('c10', ['R10.4']), ('c15', ['N7']), ('c04', ['K5']), ('c11', ['R11.4'])],
     'level': 'other',
     'quick_configs': ['default'],
     'thorough_configs': ALL,
@@ -495,7 +495,7 @@ PROPS['C03'] = {
 }
 
 PROPS['C04'] = {
-    'modules': ['c04', 'fattype', ('c14', ['P2', 'P3']), ('siblings', ['SB1', 'SB2'])],
+    'modules': ['c04', 'fattype', ('c14', ['P2', 'P3']), ('siblings', ['SB1', 'SB2']), ('c11', ['R11.4'])],
     'level': 'other',
     'quick_configs': ['default'],
     'thorough_configs': ALL,
